@@ -99,6 +99,7 @@ class CtxHistory:
         self.lock = threading.Lock()
         self.by_version = {}
         self.commits = []  # (version, handles of the context states in the transaction result)
+        self.ever_disassociated = set()  # handles of states the monitor saw leaving Assoc (reach counter for 'a second time')
         with mdib.mdib_lock:
             self.by_version[mdib.mdib_version] = ctx_snapshot(mdib)
         properties.strongbind(mdib, transaction=self._on_commit)
